@@ -1,12 +1,21 @@
 /-
   C20 -- schematic layout honours every orientation and minimum-size hint: property theorems.
+
+  Spec   : Lcapy/Spec/Layout.lean   (`Satisfies`, `Hint.Sat`, `Body.Sat`, `checkPos`)
+  Model  : Lcapy/Model/Layout.lean  (constraint generation of `SchemPlacerBase._make_graphs`, longest-path placer)
+  Table  : Lcapy/Generated/LayoutTable.lean (regenerated from /repo on every run)
+  Proofs : Lcapy/Proofs/LayoutBase.lean
+
+  Claimed partial: the worklist heuristics of Lcapy's own placers (schemgraph.assign_stretchy, schemlineqplacer)
+  are not proved; their output is judged per layout by the proven checker.  TikZ text is outside the model.
 -/
 import Lcapy.Proofs.LayoutBase
 
 namespace Lcapy.C20
 open Lcapy.Layout
 
-/-- the executable checker run on Lcapy's positions decides the specification, for every spec and layout -/
+/-! ## 1. the checker run on Lcapy's positions decides the specification -/
+
 theorem check_sound (S : Spec) (L : Layout) : checkPos S L = true → Satisfies L S := by
   intro h
   unfold checkPos at h
@@ -19,5 +28,147 @@ theorem check_complete (S : Spec) (L : Layout) : Satisfies L S → checkPos S L 
   unfold checkPos
   rw [Bool.and_eq_true, List.all_eq_true, List.all_eq_true]
   exact ⟨fun n hn => by simpa using h.1 n hn, fun it hit => (item_check_iff L it).2 (h.2 it hit)⟩
+
+/-! ## 2. the generated constraints encode exactly the hints -/
+
+/-- One axis of one component, any number of pins, any order, any size `s ≥ 0`, stretchy or fixed:
+    the node links (`_xlink`) and the chain of edges over the descending argsort (`_place`, `Graph.add`)
+    hold for coordinates `c` **iff** every two pins with values `v_lo ≤ v_hi` have the same coordinate
+    (equal values: zero-length constraint) resp. lie `≥` (stretchy) / `=` (fixed) `(v_hi − v_lo)·s·k` apart. -/
+theorem constraints_pairwise (k s : Rat) (st : Bool) (c : String → Rat) (l : List (Rat × String)) (hs : 0 ≤ s) :
+    ((∀ p ∈ linkPairs l, c p.1 = c p.2) ∧ (∀ e ∈ chainEdges s st (sortDesc l), e.Sat k c))
+      ↔ ∀ a ∈ l, ∀ b ∈ l, b.1 ≤ a.1 →
+          (a.1 = b.1 → c a.2 = c b.2) ∧ (b.1 < a.1 → Reach (!st) (c a.2 - c b.2) ((a.1 - b.1) * s * k)) :=
+  place_pairwise k s st c l hs
+
+/-- One component: the x/y links and edges the model generates for it hold on a layout **iff** its spec item
+    holds -- the `Hint` (second node in the hinted direction on the same axis, distance ≥ size·spacing, = when
+    fixed) for a two-node component along an axis, the rigid `Body` for a multi-pin component. -/
+theorem constraints_match_hints (k : Rat) (L : Layout) (r : Resolved) (hk : 0 < k) (hskip : r.skip = false)
+    (hsz : r.sizeOk k = true) (it : Item) (hi : r.item k = some it) : r.graphs.Sat k L ↔ it.Sat L :=
+  elt_match k L r hk hskip hsz it hi
+
+/-- Whole netlist: the graphs built by `_make_graphs` are satisfied by a layout iff all spec items are.
+    (`free`, `ignore`d and unplaced components contribute neither edges nor items.) -/
+theorem constraints_match_hints_all (k : Rat) (L : Layout) (hk : 0 < k) (rs : List Resolved)
+    (hsz : ∀ r ∈ rs, r.sizeOk k = true) :
+    (makeGraphs rs).Sat k L ↔ ∀ it ∈ rs.filterMap (Resolved.item k), it.Sat L :=
+  all_match k L hk rs hsz
+
+/-- hence a layout passes the checker for `⟨nodes, items⟩` iff every drawn node is placed once and the generated
+    graphs hold -/
+theorem checkPos_iff_graphs (k : Rat) (L : Layout) (hk : 0 < k) (nodes : List String) (rs : List Resolved)
+    (hsz : ∀ r ∈ rs, r.sizeOk k = true) :
+    checkPos ⟨nodes, rs.filterMap (Resolved.item k)⟩ L = true ↔
+      (∀ n ∈ nodes, L.count n = 1) ∧ (makeGraphs rs).Sat k L := by
+  rw [constraints_match_hints_all k L hk rs hsz]
+  exact ⟨fun h => check_sound _ L h, fun h => check_complete _ L h⟩
+
+/-- The one-port classes of the generated table all carry the Bipole geometry: pins `+` at (−1/2, 0) and `−` at
+    (1/2, 0), both nodes drawn, stretchable, unit width.  (Complete finite table, re-decided after every
+    regeneration from /repo.) -/
+theorem one_port_rows :
+    (∀ cls ∈ ["R", "C", "L", "V", "I", "D", "W", "O", "P", "Y", "Z", "SW", "FB", "CPE", "BAT", "VM", "AM", "NR", "XT", "FS"],
+      lookupRow cls = lookupRow "Bipole") ∧
+    (lookupRow "Bipole").map (fun r => r.pins.map (fun p => (p.name, p.x, p.y))) = some [("+", -1/2, 0), ("-", 1/2, 0)] ∧
+    (lookupRow "Bipole").map (fun r => (r.nodePinnames, r.canStretch, r.place, r.directive)) = some (["+", "-"], true, true, false) ∧
+    (lookupRow "Bipole").map (fun r => (r.defaultWidth * r.shapeScale, r.w, r.defaultAspect)) = some (1, 1, 1) := by
+  refine ⟨?_, by decide +kernel, by decide +kernel, by decide +kernel⟩
+  intro cls h
+  simp only [List.mem_cons, List.mem_nil_iff, or_false] at h
+  rcases h with rfl | rfl | rfl | rfl | rfl | rfl | rfl | rfl | rfl | rfl | rfl | rfl | rfl | rfl | rfl | rfl | rfl | rfl | rfl | rfl <;> rfl
+
+/-- A one-port whose two nodes carry the Bipole pins rotated by an angle of the code's table gets the hint
+    "second node in direction `dirOfAngle angle`, length size·k" -- for every size, scale-free. -/
+theorem one_port_item (k : Rat) (r : Resolved) (a b : String) (ta tb : Rat × Rat) (hskip : r.skip = false)
+    (hp : r.pins = [(a, ta), (b, tb)])
+    (ha : rotCode r.angle (-1/2, 0) = some ta) (hb : rotCode r.angle (1/2, 0) = some tb) :
+    ∃ d, dirOfAngle r.angle = some d ∧ r.item k = some (.hint ⟨a, b, d, r.size * k, !r.stretch⟩) := by
+  unfold rotCode at ha hb
+  unfold Resolved.item
+  simp only [hskip, hp, Bool.false_eq_true, if_false]
+  split_ifs at ha hb with h0 h90 h180 h180' h90'
+  all_goals (injection ha with ha; injection hb with hb; subst ha; subst hb)
+  · refine ⟨.right, by rw [h0]; decide +kernel, ?_⟩; norm_num
+  · refine ⟨.up, by rw [h90]; decide +kernel, ?_⟩; norm_num
+  · refine ⟨.left, by rw [h180]; decide +kernel, ?_⟩; norm_num
+  · refine ⟨.left, by rw [h180']; decide +kernel, ?_⟩; norm_num
+  · refine ⟨.down, by rw [h90']; decide +kernel, ?_⟩; norm_num
+
+/-- ... and that is literally the item the specification assigns to a one-port from its hinted angle alone
+    (`specItem` does not look at pin coordinates): spec and model agree on every one-port inside the code's table -/
+theorem one_port_spec_item (k : Rat) (r : Resolved) (a b : String) (ta tb : Rat × Rat) (hskip : r.skip = false)
+    (hop : r.onePort = true) (hp : r.pins = [(a, ta), (b, tb)])
+    (ha : rotCode r.angle (-1/2, 0) = some ta) (hb : rotCode r.angle (1/2, 0) = some tb) :
+    r.specItem k = r.item k := by
+  obtain ⟨d, hd, hi⟩ := one_port_item k r a b ta tb hskip hp ha hb
+  rw [hi]
+  unfold Resolved.specItem
+  simp only [hskip, hop, hp, hd, Bool.false_eq_true, if_false]
+
+/-- the rotation table of the code (`Cpt.R`: 0, 90, 180, −180, −90) agrees with the quarter-turn meaning wherever
+    it applies; outside the table the code uses float cos/sin and the model refuses (`unsupported-angle`) while the
+    spec (`rotExact`) still says what the hint means -/
+theorem rotCode_agrees (a : Rat) (v w : Rat × Rat) (h : rotCode a v = some w) : rotExact a v = some w := by
+  unfold rotCode at h
+  split_ifs at h with h0 h90 h180 h180' h90'
+  all_goals (first | subst h0 | subst h90 | subst h180 | subst h180' | subst h90')
+  all_goals (rw [← h]; unfold rotExact; simp)
+  all_goals (try norm_num)
+
+/-! ## 3. longest-path placement (the model's placer, witness of consistency) -/
+
+/-- On a DAG presented with a duplicate-free (reverse) topological order -- any number of nodes and edges, any
+    sizes -- the longest-path distances satisfy every ≥-constraint. -/
+theorem longest_path_feasible (edges : List WEdge) (l : List String) (hnd : l.Nodup) (ht : RevTopo edges l) :
+    ∀ e ∈ edges, e.src ∈ l → e.dst ∈ l → e.size ≤ lp edges l e.dst - lp edges l e.src :=
+  lp_feasible edges l hnd ht
+
+/-- the executable order check used by `placeAxis` decides `RevTopo` -/
+theorem revTopo_check (edges : List WEdge) (l : List String) : revTopoB edges l = true ↔ RevTopo edges l :=
+  revTopoB_iff edges l
+
+theorem longest_path_nonneg (edges : List WEdge) (l : List String) (u : String) : 0 ≤ lp edges l u :=
+  lp_nonneg edges l u
+
+/-- partial: a fixed-size edge is drawn with exactly its size when it is the only edge into its head.
+    Not covered: fixed edges competing with other constraints on the same node (no conflicting fixed cycles is not
+    enough for the plain longest-path rule); such layouts are judged case by case by `checkPos`. -/
+theorem fixed_edges_exact_partial (edges : List WEdge) (l : List String) (hnd : l.Nodup) (ht : RevTopo edges l)
+    (e : WEdge) (he : e ∈ edges) (hs : e.src ∈ l) (hd : e.dst ∈ l) (hsz : 0 ≤ e.size)
+    (hu : ∀ e' ∈ edges, e'.dst = e.dst → e' = e) : lp edges l e.dst - lp edges l e.src = e.size :=
+  lp_exact_of_unique edges l hnd ht e he hs hd hsz hu
+
+/-! ## non-vacuity -/
+
+/-- a resistor drawn `right=2` between nodes 1 and 2 with spacing 2: hypotheses of `constraints_match_hints` hold -/
+example : Resolved.sizeOk 2 ⟨"R1", "R", [("1", (-1/2, 0)), ("2", (1/2, 0))], 0, 2, true, false, true⟩ = true ∧
+    Resolved.item 2 ⟨"R1", "R", [("1", (-1/2, 0)), ("2", (1/2, 0))], 0, 2, true, false, true⟩
+      = some (.hint ⟨"1", "2", .right, 4, false⟩) := by
+  decide +kernel
+
+/-- a fixed three-pin body (opamp-like) is accepted by `sizeOk` and yields a `Body` item -/
+example : Resolved.sizeOk 2 ⟨"E1", "Eopamp", [("o", (5/4, 0)), ("p", (-5/4, 1/2)), ("m", (-5/4, -1/2))], 0, 1, false, false, false⟩ = true ∧
+    (Resolved.item 2 ⟨"E1", "Eopamp", [("o", (5/4, 0)), ("p", (-5/4, 1/2)), ("m", (-5/4, -1/2))], 0, 1, false, false, false⟩).isSome = true := by
+  decide +kernel
+
+/-- a diamond DAG with a long and a short branch satisfies the hypotheses of `longest_path_feasible`, and the
+    short branch is stretched (the bound is not tight everywhere) -/
+example : ["d", "c", "b", "a"].Nodup ∧
+    revTopoB [⟨"a", "b", 1⟩, ⟨"b", "d", 1⟩, ⟨"a", "c", 3⟩, ⟨"c", "d", 2⟩] ["d", "c", "b", "a"] = true ∧
+    lp [⟨"a", "b", 1⟩, ⟨"b", "d", 1⟩, ⟨"a", "c", 3⟩, ⟨"c", "d", 2⟩] ["d", "c", "b", "a"] "d" = 5 ∧
+    lp [⟨"a", "b", 1⟩, ⟨"b", "d", 1⟩, ⟨"a", "c", 3⟩, ⟨"c", "d", 2⟩] ["d", "c", "b", "a"] "b" = 1 := by
+  decide +kernel
+
+/-- `fixed_edges_exact_partial`: the uniqueness hypothesis is satisfiable -/
+example : (∀ e' ∈ ([⟨"a", "b", 2⟩, ⟨"b", "c", 1⟩] : List WEdge), e'.dst = "b" → e' = ⟨"a", "b", 2⟩) ∧
+    revTopoB [⟨"a", "b", 2⟩, ⟨"b", "c", 1⟩] ["c", "b", "a"] = true := by
+  decide +kernel
+
+/-- the checker accepts a correct layout and rejects a short one -/
+example : checkPos ⟨["1", "2"], [.hint ⟨"1", "2", .right, 4, false⟩]⟩ [("1", (0, 0)), ("2", (5, 0))] = true ∧
+          checkPos ⟨["1", "2"], [.hint ⟨"1", "2", .right, 4, false⟩]⟩ [("1", (0, 0)), ("2", (3, 0))] = false ∧
+          checkPos ⟨["1", "2"], [.hint ⟨"1", "2", .right, 4, false⟩]⟩ [("1", (0, 0)), ("2", (5, 1))] = false := by
+  decide +kernel
 
 end Lcapy.C20
